@@ -1,5 +1,8 @@
 import CrdtModel.Audit.Tool
 import CrdtModel.Props.C01
 import CrdtModel.Props.C06
+import CrdtModel.Props.C05
 #audit_ns Crdt.C01
 #audit_ns Crdt.C06
+#audit_ns Crdt.C05
+#audit_ns Crdt.CMap
